@@ -57,6 +57,14 @@ func (schemas Schemas) ResolveToType(def Type) Type {
 	return def
 }
 
+// Resolve follows references – across schemas – and tells whether it found
+// something else than a reference at the end.
+func (schemas Schemas) Resolve(def Type) (Type, bool) {
+	resolved := schemas.ResolveToType(def)
+
+	return resolved, !resolved.IsRef()
+}
+
 func (schemas Schemas) LocateObject(pkg string, name string) (Object, bool) {
 	for _, schema := range schemas {
 		if schema.Package != pkg {
